@@ -258,6 +258,18 @@ func c16Stores(c *Ctx, a *sketchAnchors) {
 					if trunc == 0 {
 						bad = firstNonEmpty(bad, "buffer is not emptied on an accepting path")
 					}
+					// nothing else touches the representation: a compaction, a flush of the buffer into the pages or a
+					// page allocation between "read the buffer" and "re-add it" makes the two halves (scaled pages, re-added
+					// units) overlap or miss each other
+					for _, e := range p.Writes() {
+						switch {
+						case e.Kind == "store" && isRecvField(e.Addr, pr.bufFld) && e.Val.Op == "slice":
+						case e.Kind == "store" && e.Addr.Op == "index" && e.Addr.Args[0].Op == "index" && isTimesW(e.Val, func(t *Term) bool { return t.unver().Key() == e.Addr.unver().Key() }, isW):
+						case e.Kind == "call" && isMethodCall(e.Call, "AddWithCount") && len(e.Call.Args) == 3 && e.Call.Args[0].isRecv():
+						default:
+							bad = firstNonEmpty(bad, "the representation is changed by something other than emptying the buffer, scaling page elements and re-adding: "+e.String())
+						}
+					}
 				}
 			}
 			c.R.check(bad == "" && nReadd > 0, rule, "BufferedPaginatedStore.Reweight/buffer-readd", shortFn(f), c.fpos(f),
